@@ -71,16 +71,17 @@ func runC02(c *Ctx) {
 					if f == nil || f.Signature.Recv() == nil || !strings.HasSuffix(f.Signature.Recv().Type().String(), "big.Int") || !bigMutators[f.Name()] {
 						continue
 					}
-					root := bigRootAll(call.Call.Args[0], 0)
-					rc, ok := root.(*ssa.Call)
-					if !ok {
-						continue
-					}
-					cn := calleeName(&rc.Call)
-					if strings.HasSuffix(cn, ".GetTd") || strings.HasSuffix(cn, ".GetTdByHash") || cn == "core.GetTd" && false {
-						n++
-						c.Ob("C02-R1", shortFn(fn)+": big.Int."+f.Name()+" mutates a total difficulty obtained from "+cn+" in place", c.Position(call.Pos()), false,
-							"GetTd hands out the cached integer: in-place arithmetic corrupts the stored total difficulty of another block")
+					for _, root := range bigRoots(call.Call.Args[0]) {
+						rc, ok := root.(*ssa.Call)
+						if !ok {
+							continue
+						}
+						cn := calleeName(&rc.Call)
+						if strings.HasSuffix(cn, ".GetTd") || strings.HasSuffix(cn, ".GetTdByHash") {
+							n++
+							c.Ob("C02-R1", shortFn(fn)+": big.Int."+f.Name()+" mutates a total difficulty obtained from "+cn+" in place", c.Position(call.Pos()), false,
+								"GetTd hands out the cached integer: in-place arithmetic corrupts the stored total difficulty of another block")
+						}
 					}
 				}
 			}
@@ -117,6 +118,25 @@ func runC02(c *Ctx) {
 			}
 			c.Ob("C02-R2", "WriteBlockWithState reads "+calleeName(s.Common())+" (fork-choice operand) under bc.mu", c.Position(s.Pos()), held[s]["BlockChain#0.mu"], fmt.Sprintf("locks held: %v", keysOf(held[s])))
 		}
+		// who may move the head: insert is called only from the guarded fork-choice code, from reorg (itself called
+		// only there) and when the chain is reset to genesis; nothing else may promote a block
+		insFn, rgFn := c.Fn("core:(*BlockChain).insert"), c.Fn("core:(*BlockChain).reorg")
+		okCallers := map[*ssa.Function]map[string]string{
+			insFn: {"(*core.BlockChain).WriteBlockWithState": "under the total-difficulty guard above", "(*core.BlockChain).reorg": "new-chain blocks of a guarded reorg",
+				"(*core.BlockChain).ResetWithGenesisBlock": "chain reset to genesis"},
+			rgFn: {"(*core.BlockChain).WriteBlockWithState": "under the total-difficulty guard above"},
+		}
+		ncs := 0
+		for _, caller := range c.SrcFns {
+			for target, allowed := range okCallers {
+				for _, cs := range callSitesOf(caller, target) {
+					ncs++
+					why, ok := allowed[shortFn(caller)]
+					c.Ob("C02-R2", shortFn(caller)+" may call "+shortFn(target), c.Position(cs.Pos()), ok, why)
+				}
+			}
+		}
+		c.Ob("C02-R2", "call sites of insert/reorg found", "", ncs >= 4, fmt.Sprintf("%d", ncs))
 		wh := c.Fn("core:(*HeaderChain).WriteHeader")
 		hext := `new\(Int\)\.Add\(Header#0\.Difficulty, HeaderChain#0\.GetTd\(Header#0\.ParentHash, \(Header#0\.Number\.Uint64\(\) - 1\)\)\)`
 		hloc := `HeaderChain#0\.GetTd\(HeaderChain#0\.currentHeaderHash, HeaderChain#0\.CurrentHeader\(\)\.Number\.Uint64\(\)\)`
@@ -124,5 +144,5 @@ func runC02(c *Ctx) {
 			{Name: "header chain head moves only when the new total difficulty is not lower", Re: `^` + hext + ` (>|==) ` + hloc + `$`},
 		})
 	})
-	c.Min("C02-R2", 6)
+	c.Min("C02-R2", 10)
 }
